@@ -117,6 +117,7 @@ def check_property(pid, tier, keep=False):
     cov_types = []
     unref = [0]
     stubs_used = []
+    assumed_fns = []
     verus_s = 0.0
     smt_us = 0
     thorough_info = {}
@@ -174,6 +175,7 @@ def check_property(pid, tier, keep=False):
                 trusted.setdefault(k, [])
                 trusted[k] += [x for x in v if x not in trusted[k]]
             stubs_used += getattr(b, "stubs", [])
+            assumed_fns += getattr(b, "assumed_repo_fns", [])
             if any("IN-EXTRACTED-BODY" in a for a in tr["assume"]) or tr["admit"]:
                 undecided.append("%s: assume/admit inside verified text: %s" % (uname, tr["assume"] + tr["admit"]))
             for k, v in U.clause_counts(b).items():
@@ -282,6 +284,7 @@ def check_property(pid, tier, keep=False):
             "trusted_base": tb,
             "back_end": "Verus (Z3)",
             "contracts_proved_in_other_units_and_assumed_here": sorted(set(stubs_used)),
+            "repository_functions_assumed_by_hand_written_contract_text_fingerprinted": sorted(set(assumed_fns)),
             "prelude_stubs_present_but_not_referenced_by_this_unit": unref[0],
             "explanation": "obligations = Verus verification units (functions and lemmas, each the conjunction of its ensures / call-site requires / loop invariants / decreases / safety conditions) generated from the unit files built from /repo's working tree on this run; discharged = those Z3 proved.",
             "clause_counts_in_extracted_functions": clauses,
